@@ -32,7 +32,7 @@ ASSUMPTIONS = ['look-back of n hits at p%: the floor(n*p/100) or ceil(...) lates
 
 def _scene_list(tier):
     sc = (_deckfam.two_deck_scenes(tier, rich=False) + _deckfam.two_ceilo_scenes(tier) + _deckfam.split_scenes(tier)[:6]
-          + _deckfam.degenerate_scenes(tier))
+          + _deckfam.degenerate_scenes(tier) + _deckfam.streak_scenes(tier)[:2] + _deckfam.double_split_scenes(tier)[:2])
     # bases with fractional feet just below / at coding boundaries (5th percentile interpolates between hits)
     D = _deckfam.D
     for h in (1999.96, 699.98, 11999.6, 9999.99, 10000.0, 10049.0, 99.99, 1000.0):
